@@ -22,6 +22,9 @@ pub struct Ctx {
 	pub known: Vec<Known>,
 	pub start: Instant,
 	pub threads: usize,
+	/// second pass after the in-process run died (allocation failure, stack overflow, sanitizer abort): every random
+	/// driver runs in a crash-recovering child so that the killing case is identified and reported
+	pub crash_mode: bool,
 }
 
 impl Ctx {
@@ -32,7 +35,8 @@ impl Ctx {
 			.filter(|k| k.property == property)
 			.collect();
 		let threads = std::env::var("VERIF_THREADS").ok().and_then(|s| s.parse().ok()).unwrap_or(16);
-		Ctx { property, tier, seed, zoo: zoo(), known, start: Instant::now(), threads }
+		let crash_mode = std::env::var("PSC_VERIF_CRASH_MODE").map_or(false, |v| v == "1");
+		Ctx { property, tier, seed, zoo: zoo(), known, start: Instant::now(), threads, crash_mode }
 	}
 
 	pub fn tier_name(&self) -> &'static str {
@@ -52,6 +56,11 @@ impl Ctx {
 	}
 
 	pub fn random(&self, name: &str, quick_total: u32, thorough_factor: u32, tape_len: usize, check: &CheckFn) -> Outcome {
+		if self.crash_mode {
+			if let Some(out) = crate::worker::random_in_child(self, name, quick_total, thorough_factor, tape_len) {
+				return out;
+			}
+		}
 		let cfg = RandomCfg {
 			seed: self.seed,
 			shards: self.threads,
@@ -96,6 +105,7 @@ impl Report {
 					"signature": violation.sig,
 					"tape": hex_full(&tape),
 					"detail": violation.detail,
+					"in_worker": violation.sig.contains("/crash/"),
 				}),
 			));
 		}
